@@ -119,7 +119,8 @@ def write_replay(prop, subcheck, case, key, detail, directory=None):
     with open(path, 'w', encoding='utf-8') as f:
         rec = {'property': prop, 'subcheck': subcheck, 'key': key, 'detail': detail, 'case': case}
         if sys.flags.optimize:
-            rec['python_optimize'] = True       # found (and to be replayed) in an interpreter started with -O
+            rec['python_optimize'] = True       # found (and to be replayed) in the second pass's interpreter: -O, ...
+            rec['seed'] = int(os.environ.get('VERIF_SEED', '1') or 1)     # ... ASCII locale, hash seed 1000 + seed
         json.dump(rec, f, indent=1, sort_keys=True, default=str)
     return path
 
